@@ -203,6 +203,15 @@ def run(res, tier, seed):
                 cases.append({"b64": base64.b64encode(use.encode()).decode(), "oplimit": 30000, "parselimit": pl, "mode": 0,
                               "lazypre": base64.b64encode(pre.encode()).decode()})
                 meta.append((pre + "  ||restored, then||  " + use, "lazy-parse-budget", ("lazy", nterms), 30000, 0, pl))
+    # the counter is ONE account across lazily compiled bodies: a function / computed value restored from JSON is compiled at its first
+    # call (Parse inside the running evaluation); the work done before the call and inside the body adds up, so 20000 dice + a body
+    # of 20000 dice under a budget of 30000 is an error, and every die drawn is charged (power-of-two sides: one draw per die)
+    for pre, use in (("func f0() { 20000d2 }", "20000d2 + f0()"), ("&cv0 = 20000d2", "20000d2 + cv0"), ("func f0() { 20000d2 }", "x = 20000d2; f0() + x"),
+                     ("func f1() { 9000d2 }; func f0() { f1() + 9000d2 }", "9000d2 + f0() + 9000d2"), ("&cv1 = 9000d2; &cv0 = cv1 + 9000d2", "9000d2 + cv0 + cv1 + 9000d2"),
+                     ("func f0() { 20000d2 }", "[1,2,3].map(func(u){ 1 }); 20000d2 + f0()")):
+        cases.append({"b64": base64.b64encode(use.encode()).decode(), "oplimit": 30000, "parselimit": 0, "mode": 0,
+                      "lazypre": base64.b64encode(pre.encode()).decode()})
+        meta.append((pre + "  ||restored, then||  " + use, "nested-work-lazy", "budget", 30000, 0, 0))
     rows, fatal = run_cases(cases, timeout=60 if tier == "quick" else 240)
     found = 0
     kinds = {}
